@@ -366,9 +366,29 @@ def with_rule(prog, i, r2):
 
 def rule_indices(prog, with_body=None):
     out = []
+    dead_risk = _rules_calling_own_component(prog) if with_body else ()
     for i, r in enumerate(prog['rules']):
         if with_body is None or bool(r['body']) == with_body:
+            if i in dead_risk:
+                continue
             out.append(i)
+    return out
+
+
+def _rules_calling_own_component(prog):
+    """Rule-level corruption sites (K1-K3) of recursive programs keep to rules that do not
+    call their own recursive component: with a small @Recursive depth a rule that needs
+    another member is provably empty in every unfolded generation, the compiler prunes it
+    before looking at it, and nothing is (or need be) reported - the corruption would sit in
+    dead code (seen at the thorough tier: @Recursive(Rc, 1) with Rc :- ..., Ra(x), Rb(x))."""
+    if prog.get('profile') != 'rec':
+        return ()
+    comps, dd = recgen.components(prog)
+    out = set()
+    for i, r in enumerate(prog['rules']):
+        comp = next((c for c in comps if r['pred'] in c), None)
+        if comp is not None and (common.deps_of_rule(r) & set(comp)):
+            out.add(i)
     return out
 
 
@@ -826,8 +846,17 @@ def choose_K7(rng, prog):
     outside = [x for x in defined if x not in seen and x != f]
     if not outside:
         return None
-    return {'make': k, 'bad_arg': rng.choice(outside),
-            'mode': rng.choice(['replace', 'replace', 'add'])}
+    # 'chained': the bad argument is given to a functor that is itself MADE by `:=`
+    # (Gq1 := G0(Unrelated: V) after G0 := F(A: B)): values bound earlier are in G0's closure
+    vals = set()
+    for a, v in makes[k][2]:
+        if v[0] == 'pred':
+            vals |= common.closure_rules(prog, v[1])[1] | {v[1]}
+    outside_chained = [x for x in outside if x not in vals and x != makes[k][0]]
+    modes = ['replace', 'replace', 'add'] + (['chained', 'chained'] if outside_chained else [])
+    mode = rng.choice(modes)
+    return {'make': k, 'bad_arg': rng.choice(outside_chained if mode == 'chained' else outside),
+            'mode': mode}
 
 
 def apply_K7(prog, p):
@@ -837,6 +866,13 @@ def apply_K7(prog, p):
     _, seen = common.closure_rules(prog, f)
     assert p['bad_arg'] not in seen and p['bad_arg'] != f
     args = [list(a) for a in mk[2]]
+    if p['mode'] == 'chained':
+        new = ['Gq1', mk[0], [[p['bad_arg'], args[0][1]]]]
+        makes.append(new)
+        p2 = dict(prog)
+        p2['make'] = makes
+        return p2, {'rule': None, 'stmt': ['make', len(makes) - 1], 'vars': [],
+                    'preds': [p['bad_arg']], 'functor': ['Gq1', mk[0]]}
     if p['mode'] == 'replace':
         args[0] = [p['bad_arg'], args[0][1]]
     else:
